@@ -186,6 +186,8 @@ pub enum Op {
     Mmap(u16, IReg),
     Munmap(u16),
     QueryAll,
+    /// the public `Simulator::call_subroutine`
+    CallSub(u16),
     SubDef(u16, SigS),
     /// host event applied between drive calls (same events the clock can apply mid-call)
     Host(HostEv),
@@ -544,6 +546,10 @@ pub fn exec_op(w: &mut World, op: &Op) -> OpRes {
         }
         Op::Munmap(a) => {
             let _ = w.sim.munmap_internal(*a);
+            OpRes::Cfg
+        }
+        Op::CallSub(a) => {
+            let _ = w.sim.call_subroutine(*a);
             OpRes::Cfg
         }
         Op::QueryAll => {
